@@ -15,9 +15,9 @@ CHECKS = {
    note="Trusted: TLC, recording sink and per-region pattern recogniser of the harness, hook bufiox.VerifState. Bounds: MC <=4 (quick) / 5 (thorough) operations over sizes {0,1,4095,4096,4097,9000,20000}; traces up to 40/200 operations. A second flush cycle of a bytes writer is judged for errors/WrittenLen only.",
    design="6 C05, 4.2, App. C"),
  "C09": dict(
-   technique="TLA+ ownership model (BufPool) checked by TLC + validation of pool-boundary traces of the real code over an instrumented pool double",
+   technique="TLA+ ownership model (BufPool) checked by TLC (bounded), Apalache (inductive invariant) and TLAPS (proof for any number of buffers) + validation of pool-boundary traces of the real code over an instrumented pool double",
    text="TLC checks that the grow-and-park/release/flush buffer life-cycles of the reader, bytes reader, writer, bytes writer and ReaderSkipDecoder keep the ownership invariants (no live slice in a pooled or co-tenant buffer, caller memory never pooled, no pool use when caching is disabled) under every interleaving with an adversarial co-tenant. Recorded executions of the real code over the pool double (every Malloc/Free as an event, poison-on-free, foreign/double free detection, co-tenant draining and scribbling every class between operations, every handed-out slice retained and re-compared) must be enabled BufPool actions (rules P1..P5).",
-   note="Trusted: TLC, the pool double's fidelity to mcache's contract, Go-side content comparison of retained slices and caller memory. A read-after-free that still sees the old bytes is visible only as an ownership-rule breach (free while live), not by content. Bounds: MC 3 pool buffers, 9 steps; traces: 3000 (quick) / 36000 (thorough) random histories.",
+   note="Trusted: TLC, the pool double's fidelity to mcache's contract, Go-side content comparison of retained slices and caller memory. A read-after-free that still sees the old bytes is visible only as an ownership-rule breach (free while live), not by content. Bounds: TLC 3 pool buffers, 9 steps; Apalache 4 buffers, any run length; TLAPS any set of buffers, any run (design level only); traces: 3000 (quick) / 36000 (thorough) random histories.",
    design="6 C09, App. C"),
  "C02": dict(
    technique="TLA+ reference grammar (ThriftSkip) checked by TLC + TLC-judged traces of the five skippers on generated typed value trees",
@@ -90,7 +90,7 @@ CHECKS = {
    note="Trusted: TLC, projections of bytes.Buffer (Len/Bytes) and RemainingBytes. Thin use of the technique (the model has one variable); kept because aliasing is a history property.",
    design="6 C19"),
  "C14": dict(
-   technique="TLA+ model of pooled-object / span-lock interleavings (Concurrency) checked by TLC + validation of the acquisition log of a concurrent stress driver; race detector as monitor",
+   technique="TLA+ model of pooled-object / span-lock interleavings (Concurrency) checked by TLC (bounded), Apalache (inductive invariant) and TLAPS (proof for any number of goroutines and objects) + validation of the acquisition log of a concurrent stress driver; race detector as monitor",
    text="TLC explores every interleaving of 3 goroutines over pooled objects and the span allocator's CAS-lock/bump/slice steps: exclusive ownership, reset on recycle, disjoint span regions, map never written (and finds the violation when fields are not cleared before Put). A stress driver (8..24 goroutines; cycles of BufferReader, BufferWriter, the three skip decoders, ttheader and Base codecs with the span allocator on, concurrent Get on a shared map; self-checking payloads tagged per goroutine, poisoning pool double) logs every acquisition/release under one mutex; TLC validates the log as Acquire/Release actions (no object in two hands) and every self-check. The same driver built with -race against the real mcache runs for several seeds.",
    note="Trusted: TLC, the conservative log order (acquire logged after Get, release before Put), Go's race detector. TLA+ cannot see the Go memory model: the 'no data race' clause is decided by the race detector on spec-driven executions (category other would also fit; model_checking describes the ownership part). Not deterministic: confirmation re-runs 20 copies.",
    design="6 C14, 10"),
